@@ -594,7 +594,9 @@ EXPORT errno_t _wcsnorm_decompose_s_chk(wchar_t *restrict dest, rsize_t dmax,
 
         while (dmax > 0) {
             cp = _dec_w16(src);
-            if (unlikely(dest == overlap_bumper)) {
+            /* a decomposition stores up to 4 characters: dest may step over
+               the start of src */
+            if (unlikely(dest >= overlap_bumper)) {
                 handle_werror(orig_dest, orig_dmax,
                               "wcsnorm_decompose_s: "
                               "overlapping objects",
